@@ -170,7 +170,7 @@ type seqCase struct {
 func (c *seqCase) count(k string) { c.cnt[k]++ }
 
 func (c *seqCase) detail(extra map[string]any) map[string]any {
-	d := map[string]any{"config": c.cfg.describe(), "history": c.steps,
+	d := map[string]any{"config": c.cfg.describe(), "history": c.steps, "model_holders": c.m.describeHolders(),
 		"peers": []string{peerIDs[0].String(), peerIDs[1].String(), peerIDs[2].String()}}
 	for k, v := range extra {
 		d[k] = v
